@@ -1605,6 +1605,8 @@ class Explorer:
                 if row.inp in RESP and row.enter != row.src:
                     awaiting.append((cn, row.src, RESP[row.inp]))
         r.awaiting = awaiting
+        from .tablerules import opened_states
+        opened = opened_states(A["Mailbox"], ".tx_open")
         inv_fail = {}
         n_conn = 0
         for k in r.seen:
@@ -1615,8 +1617,8 @@ class Explorer:
             for (cn, s_, req) in awaiting:
                 if d[('m', cn)] == s_ and d.get(('e', 'pend_' + req), 'F') != 'T':
                     inv_fail.setdefault((cn, s_, req), k)
-            if d[('m', 'Mailbox')] == 'S2B' and d.get(('e', 'mb_open'), 'F') != 'T':
-                inv_fail.setdefault(('Mailbox', 'S2B', 'open'), k)
+            if d[('m', 'Mailbox')] in opened and d.get(('e', 'mb_open'), 'F') != 'T':
+                inv_fail.setdefault(('Mailbox', d[('m', 'Mailbox')], 'open'), k)
         r.inv_fail = {f: self.path(r, k) for f, k in inv_fail.items()}
         r.connected_states = n_conn
         # EF closed
